@@ -64,6 +64,10 @@ type Term struct {
 
 	evalEpoch int
 	evalVal   uint64
+
+	vars     []*Term
+	varsDone bool
+	tt       *byteSet
 }
 
 func (t *Term) IsConst() bool { return t.op == OpConst }
